@@ -38,9 +38,10 @@ TECHNIQUE = ("bounded-exhaustive enumeration of annotation expression trees (all
 RULE = ("annotations = all expression trees with <= 1 constructor level (DESIGN depth 2: 13 leaves int,bool,float,str,bytes,"
         "NoneType,Any,bare list,bare dict,free/bound/constrained TypeVar + NoAnnotation at top level; constructors list,set,"
         "tuple[T],tuple[T,U],dict,Union,Optional,Annotated[T,marker],Array); ALL ordered pairs (A,B) are evaluated with "
-        "is_type_compatible and compared with the reference verdict. thorough adds depth 3 (two constructor levels) over the "
-        "reduced leaves {int,bool,str,Any}: every depth-3 annotation against every depth-2 annotation in both directions, and "
-        "all ordered depth-3 x depth-3 pairs (cap: reduced leaf alphabet, Union members unordered). Separate classes: "
+        "is_type_compatible and compared with the reference verdict. thorough adds depth 3 (two constructor levels), capped to the "
+        "reduced leaves {int,bool,str,Any} with unordered Union members: every such depth-3 annotation (all constructors) against "
+        "every depth-2 annotation in both directions, and all ordered depth-3 x depth-3 pairs over the core constructors "
+        "{list,Optional,Annotated,Array,tuple[T,U],Union}. Separate classes: "
         "Annotated[T,'m'] (string metadata), the literal None, the literal triples of tests/test_typing.py. Pipelines: "
         "pair/chain/fan-in/fan-out wirings of a sub-alphabet, edges direct / element-wise map / reduction (whole, 'y[i, :]', "
         "'y[:]'), validate_type_annotations in {True,False}, built by Pipeline([...]) and by add(). A pair is distinct by "
@@ -368,19 +369,23 @@ UNARY = ["list", "set", "tuple", "opt", "ann", "array"]
 BINARY = ["tuple", "dict", "union"]
 
 
-def grow(args, need=None, sym_union=False):
+UNARY_CORE = ["list", "opt", "ann", "array"]
+BINARY_CORE = ["tuple", "union"]
+
+
+def grow(args, need=None, sym_union=False, unary=UNARY, binary=BINARY):
     """All one-constructor applications over `args`; with `need`, at least one argument must come from `need`."""
     out = []
     needset = None if need is None else set(need)
     idx = {a: i for i, a in enumerate(args)}
-    for c in UNARY:
+    for c in unary:
         for a in args:
             if needset is not None and a not in needset:
                 continue
             if c == "opt" and a == NONE:
                 continue
             out.append((c, a))
-    for c in BINARY:
+    for c in binary:
         for a in args:
             for b in args:
                 if needset is not None and a not in needset and b not in needset:
@@ -400,6 +405,9 @@ def alphabet(name):
     if name == "d3r":  # depth exactly 3 over the reduced leaves
         lower = list(alphabet("d2r"))
         return tuple(grow(lower, need=lower[len(L_RED):], sym_union=True))
+    if name == "d3c":  # depth exactly 3, reduced leaves, core constructors only (both levels)
+        lower = [*L_RED, *grow(L_RED, sym_union=True, unary=UNARY_CORE, binary=BINARY_CORE)]
+        return tuple(grow(lower, need=lower[len(L_RED):], sym_union=True, unary=UNARY_CORE, binary=BINARY_CORE))
     if name == "strmeta":  # Annotated[T, "m"]
         out = [("annstr", a) for a in L_FULL]
         out += [("list", ("annstr", ("int",))), ("opt", ("annstr", ("int",))), ("annstr", ("list", ("int",))),
@@ -493,6 +501,9 @@ P2 = [NOANN, ("int",), ("bool",), ("str",), ("float",), NONE, ANY, ("list", ("in
       ("array", ANY), ("ann", ("array", ("int",))), TV_T, TV_U, TV_S]
 P3 = [NOANN, ("int",), ("bool",), ("str",), ANY, ("list", ("int",)), ("opt", ("int",)), ("array", ("int",))]
 PSTR = [("annstr", ("int",)), ("list", ("annstr", ("int",))), ("annstr", ("array", ("int",)))]
+PNONE = [(("list", ("NoneLit",)), ("list", ("opt", ("int",)))), (("list", ("NoneLit",)), ("list", NONE)), (("list", ("NoneLit",)), ("list", ("int",))),
+         (("dict", ("str",), ("NoneLit",)), ("dict", ("str",), ("opt", ("int",)))), (("list", NONE), ("list", ("NoneLit",))),
+         (("tuple", ("int",), ("NoneLit",)), ("tuple", ("int",), ("opt", ("str",)))), (("list", ("NoneLit",)), ("list", ("NoneLit",)))]
 
 # topology -> wiring -> ([(func, params, out, ann slot of return | None, {param: ann slot}, mapspec)], [(src slot, dst slot, edge kind)])
 _F, _G, _H = "f", "g", "h"
@@ -596,8 +607,8 @@ def run_pipe(case):  # noqa: C901, PLR0912, PLR0915
 
     def edge_sig(kind, ev, s, d, k):
         (v, reason, eff) = ev
-        r = impl(obj(eff), obj(anns[d])) if v != UNC or reason != "array-output-reduced" else None
-        wrong = isinstance(r, Exception) or (v != UNC and r != (v == MUST))
+        r = impl(obj(eff), obj(anns[d]))
+        wrong = isinstance(r, Exception) or r != (v == MUST)
         why = blame(eff, anns[d])[0] if wrong else reason
         sig = {"kind": kind, "level": "pipeline", "reason": why, "relation_wrong": bool(wrong), **extra}
         if not wrong:  # the relation is right on this edge: the defect is in how the pipeline applies it
@@ -681,7 +692,7 @@ def plan(tier, seed):
     if tier == "thorough":
         units += _chunks("pairs-depth3-x-depth2", "pairs3", "d3r", "d2", 128)
         units += _chunks("pairs-depth3-x-depth2", "pairs3", "d2", "d3r", 64)
-        units += _chunks("pairs-depth3-x-depth3", "pairs3", "d3r", "d3r", 1024)
+        units += _chunks("pairs-depth3-x-depth3", "pairs3", "d3c", "d3c", 256)
     by_stage: dict = {}
     for st, u in units:
         by_stage.setdefault(st, []).append((st, u))
@@ -756,6 +767,7 @@ def run_unit(unit):  # noqa: C901, PLR0912, PLR0915
         else:
             combos = [(w, a, b) for w in WIRINGS["pair"] for a in PSTR for b in (("str",), ("int",), ANY, ("array", ("str",)), ("array", ("int",)))]
             combos += [(w, a, b) for w in WIRINGS["pair"] for b in PSTR for a in (("str",), ("int",), ("array", ("int",)))]
+            combos += [(w, a, b) for w in ("direct", "elementwise") for a, b in PNONE]
         for w, a, b in combos:
             for validate in (True, False):
                 for mode in ("ctor", "add"):
